@@ -117,7 +117,9 @@ func GateSpecs(c *Ctx, prop string) []GateSpec {
 			"(*share/dkg/rabin.DistKeyGenerator).ProcessDeal", "(*share/dkg/rabin.DistKeyGenerator).ProcessResponse",
 			"(*share/dkg/rabin.DistKeyGenerator).ProcessSecretCommits", "(*share/dkg/rabin.DistKeyGenerator).ProcessComplaintCommits",
 			"(*share/dkg/rabin.DistKeyGenerator).ProcessReconstructCommits", "(*share/dkg/rabin.DistKeyGenerator).DistKeyShare",
-			"(*share/dkg/rabin.DistKeyGenerator).Certified", "(*share/dkg/rabin.DistKeyGenerator).isInQUAL")
+			"(*share/dkg/rabin.DistKeyGenerator).Certified", "(*share/dkg/rabin.DistKeyGenerator).isInQUAL",
+			// the phase machine: how many deals / responses / justifications end a phase early
+			"(*share/dkg/pedersen.Protocol).startFast", "(*share/dkg/pedersen.Protocol).Start")
 		s = append(s,
 			GateSpec{Func: "(*share/dkg/pedersen.DistKeyGenerator).ProcessDeals", Sink: `mapupdate:\.validShares$`, NoRet: true},
 			// a received deal is marked Success only behind all its checks (incl. the resharing consistency check)
@@ -151,6 +153,9 @@ func GateSpecs(c *Ctx, prop string) []GateSpec {
 			"proof.HashVerify", "(*proof.hashVerifier).PubRand", "(*proof.hashVerifier).consumeMsg", "(*proof.hashVerifier).Get",
 			"(*proof.hashProver).PubRand", "(*proof.hashProver).consumeMsg",
 			"(*proof.deniableProver).challengeStep", "(*proof.deniableProver).proofStep", "(*proof.deniableProver).initStep")
+		// every verifier slot starts as "not run" (so that a verifier that was never started cannot look like
+		// success): no new condition on that default
+		s = append(s, GateSpec{Func: "(*proof.deniableProver).run", Sink: `store:\.err\[.*=.*not run`, NoRet: true, Exact: true})
 	case "C15":
 		s = rets("(*shuffle.PairShuffle).Verify", "(*shuffle.SimpleShuffle).Verify", "shuffle.thver", "shuffle.BiffleVerifier", "shuffle.Verifier",
 			"shuffle.GetSequenceVerifiable", "shuffle.assertXY", "shuffle.SequencesShuffle")
@@ -176,6 +181,8 @@ func GateSpecs(c *Ctx, prop string) []GateSpec {
 	case "C19":
 		s = rets("(*xof/blake2xb.xof).XORKeyStream", "(*xof/blake2xs.xof).XORKeyStream", "(*xof/keccak.xof).XORKeyStream",
 			"(*util/random.randstream).XORKeyStream", "util/random.Int", "util/random.Bits")
+		// "depends on every reader": whatever a reader delivered is mixed into the seed, unconditionally
+		s = append(s, GateSpec{Func: "(*util/random.randstream).XORKeyStream", Sink: `call:\(\*bytes\.Buffer\)\.Write$`, NoRet: true, Exact: true})
 	case "C02":
 		s = rets("util/random.Int", "util/random.Bits", "(*group/mod.Int).UnmarshalBinary", "(*compatible.Int).SetBytesWithCheck",
 			"(*group/edwards25519.scalar).IsCanonical", "(*group/edwards25519.scalar).UnmarshalBinary")
